@@ -65,7 +65,9 @@ func parseCommand(c *updateContext, entry sm.Entry) (command, error) {
 	if err := cmd.UnmarshalVTUnsafe(entry.Cmd); err != nil {
 		return commandDummy{}, err
 	}
-	c.leaderIndex = cmd.LeaderIndex
+	if cmd.LeaderIndex != nil {
+		c.leaderIndex = cmd.LeaderIndex
+	}
 	return wrapCommand(cmd), nil
 }
 
